@@ -1,4 +1,4 @@
-\* generated by mkaggcfg.py - C13: crash points, DB loss, restarts (repaired reconciliation)
+\* generated by mkaggcfg.py - aggchain-prover flow with crashes / DB loss
 CONSTANTS
   MaxBlocks = 3
   MaxBridges = 1
@@ -6,13 +6,13 @@ CONSTANTS
   MaxSteps = 40
   RetryImm = TRUE
   MaxCertBlocks = 0
-  CallFailures = TRUE
+  CallFailures = FALSE
   Crashes = {"before_submit", "after_submit", "after_store"}
   StoreFaults = FALSE
   LoseDB = TRUE
   HeaderHasPrev = TRUE
   FixedF4 = "v2"
-  Mode = "pp"
+  Mode = "fep"
 INIT Init
 NEXT Next
 VIEW view
